@@ -102,6 +102,7 @@ def r06b(chk, rid='R06.b'):
 
 def r06f(chk, rid='R06.f'):
     chk.rule(rid, 'the preferences that select declarations, decided by evaluation: CSSSerializer.do_css_CSSStyleDeclaration is evaluated on its syntax tree over a model block (comment, an overridden and an effective declaration of one name, another declaration, a nested unknown at-rule, a declaration that serialises to nothing) for every combination of keepAllProperties, keepComments, keepUnknownAtRules, omitLastSemicolon and the omit argument: exactly the effective declarations (all of them under keepAllProperties) are written, in order, separated by semicolons; comments exactly under keepComments; the preferences do not interfere with each other')
+    chk.assume('R06.f: properties, comments and unknown rules are model objects with a fixed cssText')
     import itertools
 
     from sa.absint import Evaluator, Raised, Record
@@ -174,6 +175,7 @@ def out_model(chk, ser):
 
 def r06g(chk, rid='R06.g'):
     chk.rule(rid, 'spacer preferences change white space only where it carries no meaning, decided by evaluation: CSSSerializer.do_css_Selector and the Out class it writes through (append, value, _remove_last_if_S - all evaluated from the source) are run for selectors with descendant, child and sibling combinators in front of type, class and attribute selectors, under every combination of an empty or one-space spacer and selectorCombinatorSpacer: the descendant combinator is always written as white space, the other combinators are enclosed in selectorCombinatorSpacer, nothing else changes')
+    chk.assume('R06.g: Out.append / value / _remove_last_if_S are evaluated from the source; helper.string and helper.uri are stubs (no strings or URLs occur in the model selectors)')
     import itertools
 
     from sa.absint import Evaluator, Raised, Record
